@@ -250,6 +250,7 @@ def run(fx, tier):
     v.expect_min('R-FLOW', 40, 'id/message provenance sites')
     v.expect_min('R-DOM', 10, 'replies/session structure × TUs')
     receive_channel_rule(fx, v, 'C04')
+    inbound_qos_table_rule(fx, v, 'C04')
     return v.finish(
         'The receiver-side exchange is a finite continuation graph; the clauses are decided as edge properties of that '
         'graph (which state may store / build which acknowledgement, on which error-code edge) and def-use provenance of '
@@ -443,3 +444,46 @@ def receive_channel_rule(fx, v, prop='C04'):
                     key=prop + ':R-PAIR:client_service:sibling-ctor:%s' % fld, where=next(iter(m)))
     if n < 2 and not v.violations:
         raise AnalysisBroken('client_service constructors not found')
+
+
+def inbound_qos_table_rule(fx, v, prop='C04', rid='R-TABLE'):
+    """what publish_rec_op::perform does with a decoded PUBLISH is a function of the 4 flag bits of its first byte: folded from
+    the extracted CFG for all 16 values - QoS bits 11 is a Malformed Packet [MQTT-3.3.1-4]: on_malformed_packet and nothing
+    else (not delivered, not acknowledged); QoS 0: delivered without acknowledgement; QoS 1: PUBACK; QoS 2: PUBREC.
+    Shared with C19 ("a malformed packet never completes a user operation successfully")."""
+    from fold import fold, Unfoldable
+    if rid not in v.rules:
+        v.rule(rid, 'reaction to an inbound PUBLISH per QoS bits (16 rows folded from publish_rec_op::perform) == MQTT 5 §3.3.1.2 / §4.3')
+    EXPECT = {0: ('complete',), 1: ('send_puback',), 2: ('send_pubrec',), 3: ('on_malformed_packet',)}
+    n = 0
+    for f in fx.functions(cls='publish_rec_op', name='perform'):
+        if len(f.params) != 1:
+            continue
+        n += 1
+        v.saw(f)
+        pname = f.params[0]['n']
+        bad = []
+        hits = [0]
+        try:
+            for flags in range(16):
+                def cv(x, flags=flags):
+                    if callee_name(x) == 'get' and (x.get('fn', {}).get('ft') or [{}])[0].get('v') == 2 \
+                            and contains(x.get('args', []), lambda m: m.get('k') == 'ref' and m.get('n') == pname):
+                        hits[0] += 1
+                        return flags
+                    return None
+                outs = set()
+                for pth in fold(fx, f, {}, effects=('complete', 'send_puback', 'send_pubrec', 'on_malformed_packet', 'wait_pubrel', 'channel_store'), call_values=cv):
+                    outs.add(tuple(nme for nme, c, x, l in pth['effects']))
+                want = EXPECT[(flags >> 1) & 3]
+                if outs != {want}:
+                    bad.append('flags %s (QoS bits %d): %s, expected %s' % (format(flags, '04b'), (flags >> 1) & 3, sorted(outs), want))
+        except Unfoldable as ex:
+            raise AnalysisBroken('publish_rec_op::perform QoS table: %s' % ex)
+        if hits[0] == 0 and not v.violations:
+            raise AnalysisBroken('publish_rec_op::perform: the flags are not read as std::get<2>(message) (idiom not recognised)')
+        v.check(not bad, rid, 'publish_rec_op::perform%s QoS table [%s] (16 rows)' % (f.inst()[:25], f.tu),
+                'QoS 0 delivered, QoS 1 → PUBACK, QoS 2 → PUBREC, QoS bits 11 → malformed-packet handling only' if not bad else '; '.join(bad[:3]),
+                key=prop + ':R-TABLE:publish_rec_op:qos-bits', where=f.file)
+    if n == 0 and not v.violations:
+        raise AnalysisBroken('publish_rec_op::perform not found')
